@@ -10,6 +10,7 @@ import (
 
 	plugin "github.com/hashicorp/go-plugin"
 
+	"verif/engine/vnet"
 	"verif/engine/vs"
 )
 
@@ -29,6 +30,7 @@ type serveOpts struct {
 	onExit     func()                // deferred code of the plugin (cleanup marker)
 	seventh    string                // seventh field ("" = "true" when mux, absent otherwise)
 	realStdout []byte                // written to the real stdout after the handshake line
+	tcpAddr    string                // listen on this TCP address (e.g. a wildcard one) instead of a unix socket
 }
 
 // servePlugin is the script of a healthy plugin: what plugin.Serve does after
@@ -49,6 +51,9 @@ func servePlugin(o serveOpts) func(r *scriptRunner) {
 		switch o.proto {
 		case "netrpc":
 			ln, err := plugin.VServerListener(plugin.UnixSocketConfig{})
+			if o.tcpAddr != "" {
+				ln, err = vnet.Listen("tcp", o.tcpAddr)
+			}
 			if err != nil {
 				r.x.Fail("ENGINE", "listener: %v", err)
 				return
@@ -63,7 +68,15 @@ func servePlugin(o serveOpts) func(r *scriptRunner) {
 			addr, done = ln.Addr(), dc
 			defer l.Close()
 		case "grpc":
-			s, ln, err := plugin.VStartGRPCServer(plugin.VGRPCOpts{Plugins: o.plugins, TLS: o.tls, Mux: o.mux, Stdout: o.stdout, Stderr: o.stderr, Logger: nullLogger()})
+			var tl net.Listener
+			if o.tcpAddr != "" {
+				var err error
+				if tl, err = vnet.Listen("tcp", o.tcpAddr); err != nil {
+					r.x.Fail("ENGINE", "listener: %v", err)
+					return
+				}
+			}
+			s, ln, err := plugin.VStartGRPCServer(plugin.VGRPCOpts{Plugins: o.plugins, TLS: o.tls, Mux: o.mux, Stdout: o.stdout, Stderr: o.stderr, Logger: nullLogger(), Listener: tl})
 			if err != nil {
 				r.x.Fail("ENGINE", "grpc server: %v", err)
 				return
